@@ -275,6 +275,31 @@ func runCheck(id, tier string, seed int) int {
 			j.res.Seconds = sub.Seconds
 		}(j, sub)
 	}
+	// lemmas named by the plan are proved like any other obligation
+	for _, ln := range plan.Lemmas {
+		var lm *Lemma
+		for _, l := range C.Lemmas {
+			if l.Name == ln && !l.Axiom {
+				lm = l
+			}
+		}
+		if lm == nil {
+			problems = append(problems, "lemma named by the plan does not exist (or is an axiom): "+ln)
+			continue
+		}
+		res := buildLemmaVC(P, C, lm)
+		j := &checkJob{key: "lemma." + ln, pf: PlanFunc{Key: "lemma." + ln, Select: []string{"all"}}, res: res}
+		jobs = append(jobs, j)
+		if res.Error != "" {
+			continue
+		}
+		j.sel = res.Obls
+		wg.Add(1)
+		go func(res *FuncResult) {
+			defer wg.Done()
+			discharge(res, opts, sem)
+		}(res)
+	}
 	wg.Wait()
 
 	// evaluate
@@ -379,6 +404,9 @@ func runCheck(id, tier string, seed int) int {
 	// bounded stand-ins
 	var boundedOut []map[string]any
 	for _, b := range plan.Bounded {
+		if os.Getenv("GOVC_NO_BOUNDED") != "" {
+			continue
+		}
 		r := runBounded(b, tier, seed)
 		boundedOut = append(boundedOut, r)
 		if ok, _ := r["ok"].(bool); !ok {
@@ -441,9 +469,11 @@ func runCheck(id, tier string, seed int) int {
 		"wall_s":      round3(time.Since(t0).Seconds()),
 		"violations":  violations,
 	}
-	os.MkdirAll(filepath.Join(verifRoot(), "evidence"), 0o755)
-	data, _ := json.MarshalIndent(ev, "", " ")
-	os.WriteFile(filepath.Join(verifRoot(), "evidence", id+".json"), data, 0o644)
+	if os.Getenv("GOVC_NO_EVIDENCE") == "" {
+		os.MkdirAll(filepath.Join(verifRoot(), "evidence"), 0o755)
+		data, _ := json.MarshalIndent(ev, "", " ")
+		os.WriteFile(filepath.Join(verifRoot(), "evidence", id+".json"), data, 0o644)
+	}
 	fmt.Fprintf(os.Stderr, "govc: %s %s: %d obligations, %d discharged, %d known findings, %d violations, %.1fs\n", id, tier, total, discharged, kfCount, violations, time.Since(t0).Seconds())
 	if violations > 0 {
 		return 1
